@@ -18,6 +18,7 @@ KINDS = {
     'x': dict(sc=False, attrs=[], text=None),
     'x{t}': dict(sc=False, attrs=[], text='lit'),
     'y[p]': dict(sc=False, attrs=['caret'], text=None),
+    'q[p=""]': dict(sc=False, attrs=['caret'], text=None),
     'z[p q=v]': dict(sc=False, attrs=['caret', None], text=None),
     'w[p q]/': dict(sc=True, attrs=['caret', 'caret'], text=None),
     'k/': dict(sc=True, attrs=[], text=None),
@@ -25,8 +26,8 @@ KINDS = {
     'e[p=${2} q=${1}]': dict(sc=False, attrs=[[2], [1]], text=None),
     'f{${1:a} ${3} ${1}}': dict(sc=False, attrs=[], text=[1, 3, 1]),
 }
-IMPLICIT_KINDS = ['x', 'x{t}', 'y[p]', 'z[p q=v]', 'w[p q]/', 'k/']
-POS_KINDS = ['x', 'x{t}', 'y[p]', 'w[p q]/', 'f{${1:a} ${3} ${1}}', 'p{l1\nl2}', 'a', 'img']
+IMPLICIT_KINDS = ['x', 'x{t}', 'y[p]', 'q[p=""]', 'z[p q=v]', 'w[p q]/', 'k/']
+POS_KINDS = ['x', 'x{t}', 'y[p]', 'q[p=""]', 'w[p q]/', 'f{${1:a} ${3} ${1}}', 'p{l1\nl2}', 'a', 'img']
 MARKUP_SYNTAXES = ['html', 'xml', 'jsx', 'haml', 'pug', 'slim']
 STYLE_ABBRS = ['p', 'bd', 'p+bd', '@kf', 'trf:rx', 'lg', 'p10+m5-a!', '@ff', 'c#f.5']
 STYLE_SYNTAXES = ['css', 'sass', 'stylus']
